@@ -1,10 +1,15 @@
 ;; needs: base
 ; ---------------------------------------------------------------------------
-; The BSON order as a total preorder. These are the statements of the
-; total-order lemmas of property C12 (specs/lemmas/cmp_order.smt2 proves them
-; from the definition of cmp by induction on the size of the values); the
-; functions that build on Compare (sort keys, distinct, $min/$max, index order)
-; use them in this form.
+; The BSON order as a total preorder: ASSUMED. These are the statements of the
+; total-order lemmas of property C12 (range, reflexivity, antisymmetry,
+; transitivity in its mixed forms). C12 proves that the code computes the
+; specified function cmp; that cmp, as specified in specs/cmp.smt2, is a total
+; preorder would need an induction on the size of the values over the
+; first-difference definition of the array / document order, which has not been
+; carried out (no lemma file exists for it). Every evidence file of a check that
+; uses this module lists it as an assumption. The functions that build on
+; Compare (sort keys, distinct, $min/$max, match operators, index order) use the
+; lemmas in this form.
 (assert (forall ((a Val) (b Val)) (! (and (<= (- 1) (cmp a b)) (<= (cmp a b) 1)) :pattern ((cmp a b)))))
 (assert (forall ((a Val)) (! (= (cmp a a) 0) :pattern ((cmp a a)))))
 (assert (forall ((a Val) (b Val)) (! (= (cmp b a) (- (cmp a b))) :pattern ((cmp a b)))))
